@@ -353,9 +353,37 @@ def _inline_return_temps(fn):
     """`tmp = <expr>; return tmp` (tmp used nowhere else) is rewritten in place to `return <expr>`: binding a returned
     expression to a temporary first is a behaviour-preserving edit that rules written against `return <expr>` must not notice"""
     uses: dict[str, int] = {}
+    stores: dict[str, list] = {}
+    loads: dict[str, int] = {}
     for n in own_walk(fn):
         if isinstance(n, ast.Name):
             uses[n.id] = uses.get(n.id, 0) + 1
+            if isinstance(n.ctx, ast.Load):
+                loads[n.id] = loads.get(n.id, 0) + 1
+            else:
+                stores.setdefault(n.id, []).append(n)
+    # a name that is (re)defined k times, each definition a plain assignment immediately followed by the statement holding its only
+    # use: k independent single-use temporaries (`outgoing = bio.read(); await send(outgoing)` at three places of one function)
+    for nm, sts in stores.items():
+        if len(sts) < 2 or loads.get(nm, 0) != len(sts):
+            continue
+        okm = True
+        for x in sts:
+            st_ = getattr(x, "_parent", None)
+            if not (isinstance(st_, (ast.Assign, ast.AnnAssign)) and (st_.targets == [x] if isinstance(st_, ast.Assign) else st_.target is x)):
+                okm = False
+                break
+            hold = getattr(st_, "_parent", None)
+            blk_ = next((getattr(hold, fl) for fl in ("body", "orelse", "finalbody") if isinstance(getattr(hold, fl, None), list) and st_ in getattr(hold, fl)), None)
+            if blk_ is None or blk_.index(st_) + 1 >= len(blk_):
+                okm = False
+                break
+            nxt = blk_[blk_.index(st_) + 1]
+            if sum(1 for y in ast.walk(nxt) if isinstance(y, ast.Name) and y.id == nm and isinstance(y.ctx, ast.Load)) != 1:
+                okm = False
+                break
+        if okm:
+            uses[nm] = 2
     changed = False
     for par in [fn] + list(own_walk(fn)):
         for fld in ("body", "orelse", "finalbody"):
@@ -375,8 +403,9 @@ def _inline_return_temps(fn):
                         continue
                 # `tmp = <expr>; return g(..., tmp, ...)` / `return a, tmp`: the temporary is the first thing the return statement
                 # evaluates apart from plain names and constants, so folding it back keeps the evaluation order
-                if isinstance(a, (ast.Assign, ast.AnnAssign)) and isinstance(b, ast.Return) and b.value is not None and not isinstance(b.value, ast.Name) \
-                        and getattr(a, "value", None) is not None:
+                if isinstance(a, (ast.Assign, ast.AnnAssign)) and getattr(a, "value", None) is not None and (
+                        (isinstance(b, ast.Return) and b.value is not None and not isinstance(b.value, ast.Name))
+                        or (isinstance(b, ast.Expr) and isinstance(b.value, (ast.Await, ast.Call)))):
                     tg = a.targets[0] if isinstance(a, ast.Assign) and len(a.targets) == 1 else (a.target if isinstance(a, ast.AnnAssign) else None)
                     if isinstance(tg, ast.Name) and uses.get(tg.id, 0) == 2 and not any(isinstance(x, (ast.Yield, ast.YieldFrom, ast.NamedExpr, ast.Lambda)) for x in ast.walk(a.value)):
                         hit = None
@@ -384,6 +413,8 @@ def _inline_return_temps(fn):
                             if isinstance(x, ast.Name) and x.id == tg.id and isinstance(x.ctx, ast.Load):
                                 hit = x
                                 break
+                            if isinstance(x, ast.Attribute) and _simple_arg(x):
+                                continue        # a plain attribute chain (`self.transport_stream`) has no effect of its own
                             if not isinstance(x, (ast.Name, ast.Constant)):
                                 break
                         if hit is not None:
